@@ -118,6 +118,29 @@ def rule_b(ctx):
     am2 = AM(l1)
     ok = am2.has(l1.node, f"return self.mass_matrix_cells.dot(self.transport_density({l1.params[1]})).sum()") is not None and sum(1 for r in ast.walk(l1.node) if isinstance(r, ast.Return)) == 1
     ctx.ob(R, l1.qname, "distance = sum(mass_matrix_cells . transport_density(flux))", ok, str(am2.show()), l1.node)
+    # the density that is integrated to the distance (l1_dissipation) and reported (transport density of the result) is the weighted one: the
+    # value of `weighted` in force at these calls -- the keyword if given, the parameter's default otherwise -- is the constant True
+    a_ = td.node.args
+    pos_ = [x.arg for x in a_.posonlyargs + a_.args]
+    dflt = None
+    if "weighted" in pos_:
+        i_ = pos_.index("weighted") - (len(pos_) - len(a_.defaults))
+        dflt = a_.defaults[i_] if 0 <= i_ < len(a_.defaults) else None
+    elif "weighted" in [x.arg for x in a_.kwonlyargs]:
+        dflt = a_.kw_defaults[[x.arg for x in a_.kwonlyargs].index("weighted")]
+    has_w = dflt is not None or "weighted" in pos_
+    k_ = ctx.model.cls(WAS, "VariationalWassersteinDistance")
+    for fn_ in [l1] + [f_ for f_ in k_.methods.values() if f_.name != "l1_dissipation" and any(isinstance(r_, ast.Return) for r_ in ast.walk(f_.node))
+                       and any(isinstance(c_, ast.Call) and norm(c_.func) == "self.transport_density" and any(kw.arg == "flatten" for kw in c_.keywords) for c_ in ast.walk(f_.node))]:
+        for c_ in ast.walk(fn_.node):
+            if isinstance(c_, ast.Call) and norm(c_.func) == "self.transport_density" and has_w:
+                given = next((kw.value for kw in c_.keywords if kw.arg == "weighted"), c_.args[pos_.index("weighted") - 1] if "weighted" in pos_ and len(c_.args) > pos_.index("weighted") - 1 else None)
+                eff = given if given is not None else dflt
+                is_const = isinstance(eff, ast.Constant) and isinstance(eff.value, bool)
+                ctx.ob(R, fn_.qname, f"`{norm(c_)[:60]}`: the density that enters the distance / the reported result is the weighted one", is_const and eff.value is True,
+                       (f"weighted is {eff.value} here ({'argument' if given is not None else 'default of transport_density'}): the distance no longer scales with the cell weights "
+                        "(a constant weight c gives W1 instead of c * W1)") if is_const else f"value of `weighted` not found to be a constant: {norm(eff) if eff is not None else 'missing'}",
+                       c_, evidence=is_const)
 
 
 def rule_c(ctx):
